@@ -24,27 +24,34 @@ import time as _real_time
 
 
 class VClock:
-    """Virtual clock. `now` is advanced by the scheduler; every read adds a strictly increasing epsilon because
-    the code under test compares handshake timestamps with a strict '>'."""
+    """Virtual clocks, one per instance (Supvisors never compares clocks of different instances: remote times are
+    display-only). The clock of an instance only advances when the scheduler advances it (by default: one tick
+    period before each of its Supervisor ticks). Every read adds a strictly increasing epsilon because the code
+    under test compares handshake timestamps with a strict '>'."""
+
+    EPS = 1e-9
 
     def __init__(self):
-        self.now = 1000.0
+        self.t = {}           # per instance name: seconds
         self.reads = 0
-        self.offsets = {}     # per instance name: monotonic offset
         self.current = None   # current instance name (set by Cluster.enter)
 
-    def monotonic(self):
+    def _now(self):
         self.reads += 1
-        self.now += 1e-6
-        return self.now + self.offsets.get(self.current, 0.0)
+        return self.t.setdefault(self.current, 1000.0) + self.reads * self.EPS
+
+    def monotonic(self):
+        return self._now()
 
     def time(self):
-        self.reads += 1
-        self.now += 1e-6
-        return 1.7e9 + self.now
+        return 1.7e9 + self._now()
 
-    def advance(self, secs):
-        self.now += secs
+    def advance(self, secs, name=None):
+        if name is None:
+            for n in self.t:
+                self.t[n] += secs
+        else:
+            self.t[name] = self.t.get(name, 1000.0) + secs
 
 
 class FakeTimeModule(types.ModuleType):
@@ -688,6 +695,8 @@ class Cluster:
             with open(self.rules_path, 'w') as f:
                 f.write(rules_xml)
         self.clock = VClock()
+        for idx, name in enumerate(layout):
+            self.clock.t[name] = 1000.0 * (idx + 1)
         self.faketime = FakeTimeModule(self.clock)
         self.tick_secs = tick_secs
         self.current = None
@@ -698,6 +707,7 @@ class Cluster:
         self.cuts = set()             # frozenset({a,b}) pairs that cannot talk
         self.wirelog = []             # (seq, kind, src, dst, info...)
         self.errors = []              # internal errors observed (C16)
+        self.criticals = []           # other critical log records (informative)
         self.pending_order = {}       # node -> 'restart'/'shutdown' (Supervisor order received, not yet executed)
         self.observers = []           # objects with optional on_wire/on_step callbacks
         self.seq = 0
@@ -772,7 +782,14 @@ class Cluster:
         node = self.nodes[name]
         if node.logger and node.logger.criticals:
             for msg in node.logger.criticals:
-                self.errors.append({'node': name, 'what': 'critical log', 'exc': msg[-600:]})
+                # C16: the last-resort guards log the traceback at CRITICAL level; other critical records
+                # (refused FSM transition, OFF state waiting...) are informative
+                if 'Traceback' in msg:
+                    self.errors.append({'node': name, 'what': 'critical log', 'exc': msg[-600:]})
+                else:
+                    self.criticals.append((name, msg[:200]))
+                    if len(self.criticals) > 500:
+                        del self.criticals[:250]
             node.logger.criticals = []
 
     # -- scheduler actions --------------------------------------------------------------------------------------
@@ -790,6 +807,8 @@ class Cluster:
         if not node.alive:
             return False
         node.tick_count += 1
+        if advance:
+            self.clock.advance(self.tick_secs, name)
         with self.enter(name):
             self.sup_transition(name, _entered=True)
             when = int(self.clock.time())
@@ -799,8 +818,10 @@ class Cluster:
         self._apply_order(name)
         return True
 
-    def advance(self, secs=None):
-        self.clock.advance(self.tick_secs if secs is None else secs)
+    def advance(self, secs=None, name=None):
+        """Advance the clock(s) explicitly (ticks advance the clock of their own instance by themselves)."""
+        if secs:
+            self.clock.advance(secs, name)
 
     def sup_transition(self, name, _entered=False):
         """One pass of Supervisor's main loop over the process state machines."""
@@ -887,8 +908,7 @@ class Cluster:
         return n
 
     def round(self, names=None):
-        """One fair round: advance time, tick every live node, drain."""
-        self.advance()
+        """One fair round: tick every live node (each advancing its own clock), drain."""
         for n in (names or list(self.nodes)):
             if self.nodes[n].alive:
                 self.tick(n)
